@@ -13,7 +13,7 @@ from math import pi, sqrt
 from pyparsing import (Literal, Optional, White, Regex,
                        ZeroOrMore, OneOrMore, Forward, StringEnd, Group)
 
-from .core import default_table, isatom, isisotope, change_table
+from .core import default_table, isatom, isisotope, ision, change_table
 from .constants import avogadro_number
 from .util import require_keywords, cell_volume
 
@@ -338,10 +338,13 @@ class Formula(object):
         """
         total_natural_mass = total_isotope_mass = 0
         for el, count in self.atoms.items():
-            try:
-                natural_mass = el.element.mass
-            except AttributeError:
-                natural_mass = el.mass
+            # Natural form of the atom: same element and charge, no isotope
+            natural = el.element if ision(el) else el
+            if isisotope(natural):
+                natural = natural.element
+            if ision(el):
+                natural = natural.ion[el.charge]
+            natural_mass = natural.mass
             total_natural_mass += count * natural_mass
             total_isotope_mass += count * el.mass
         return total_natural_mass/total_isotope_mass
